@@ -126,6 +126,13 @@ class UseWalrusIf(SimpleCodemod, NameResolutionMixin):
                 continue
 
             assign, target, value = found_assign
+            match value:
+                case cst.Tuple(lpar=[]) | cst.Yield(lpar=[]):
+                    # `a, b` and `yield x` only stand unparenthesised on the
+                    # right of an assignment
+                    value = value.with_changes(
+                        lpar=[cst.LeftParen()], rpar=[cst.RightParen()]
+                    )
             match if_test:
                 # If test can be a comparison expression
                 case cst.Comparison(
